@@ -27,6 +27,15 @@ var Core = Alphabet{
 	Ternary: []Kind{Any, Seq},
 }
 
+// Core1 is Core over the single terminal a (inputs a^n): it reaches the sizes at which
+// two-nonterminal hidden-left-recursion interactions first appear.
+var Core1 = Alphabet{
+	Name: "core1", Terminals: []byte{'a'}, Eps: true,
+	Unary:   []Kind{Opt},
+	Binary:  []Kind{Any, Seq},
+	Ternary: []Kind{Any, Seq},
+}
+
 // With returns a copy of the alphabet with extra unary operators.
 func (a Alphabet) With(name string, unary ...Kind) Alphabet {
 	b := a
